@@ -141,6 +141,7 @@ type World struct {
 	FaultActs     func() int // number of enabled fault actions (scenario-owned)
 	DoFault       func(i int)
 	ControlConns  []*BackendConn
+	Services      map[string]func(*simnet.PeerEnd) // address -> service run as a sim task per connection
 	DialAttempts  map[string][]time.Duration // every SUT dial (accepted or not), by address
 	HostileUnpreparedID []byte // id of a statement in the proxy's prepared cache (hostile UNPREPARED replies)
 	ClockOn       bool // early clock advances allowed (off during boot and drain)
@@ -234,6 +235,18 @@ func (w *World) resolveDial(d *simnet.PendingDial) {
 		w.DialAttempts = map[string][]time.Duration{}
 	}
 	w.DialAttempts[d.Addr] = append(w.DialAttempts[d.Addr], w.Now())
+	if svc := w.Services[d.Addr]; svc != nil {
+		// a service run by a harness task over a blocking byte stream (TLS servers)
+		pe := &simnet.PeerEnd{}
+		l := w.N.ResolveDial(d, simnet.DialOutcome{Kind: simnet.DialAccept, Peer: pe, Tag: "svc:" + d.Addr})
+		if l != nil {
+			pe.L = l
+			w.Stat("dial.service")
+			w.Logf("dial %s: service connection", d.Addr)
+			simrt.Go("service:"+d.Addr, func() { svc(pe) })
+		}
+		return
+	}
 	n := w.NodeByAddr(d.Addr)
 	if n == nil {
 		w.Logf("dial %s: no such node -> refused", d.Addr)
